@@ -455,6 +455,14 @@ def slice_conv_jobs(tier):
     return jobs
 
 
+def extra_family_jobs(tier):
+    """further generator families whose stripes are worth deciding: unrolled LSTM layers (many small passes with equal names),
+    dilated convolutions rewritten from the space-to-batch form, grouped convolutions, half-pixel x2 resize on int16"""
+    import compiles
+    fams = ["lstm", "rewrite_patterns", "single:conv_groups", "single:resize_hp16", "single:tconv", "single:tconv"]
+    return compiles.plan(fams, 24 if tier == "quick" else 240, vlib.seed(), tag="c10x", capture=True)
+
+
 def upscale_jobs(tier):
     """x2 upscaling operators between convolutions (netgen family upscale_chain), compiled with the Performance strategy and
     arenas between "nothing fits" and "everything fits", so that the NEAREST-upscaling operator is cascaded and striped by
@@ -1186,7 +1194,7 @@ def _run(tier, res, b):
     lap('generator')
     # ---------------------------------------------------------------- 8. D2: stripe groups of every captured stream
     import compiles
-    d2 = compiles.run_all(c10_corpus_jobs() + compiles.corpus_jobs() + split_conv_jobs(tier) + slice_conv_jobs(tier) + upscale_jobs(tier) +
+    d2 = compiles.run_all(c10_corpus_jobs() + compiles.corpus_jobs() + split_conv_jobs(tier) + slice_conv_jobs(tier) + upscale_jobs(tier) + extra_family_jobs(tier) +
                           compiles.plan(FAMS, 64 if tier == "quick" else 1600, vlib.seed(), tag="d2", capture=True))
     programs = passes_checked = stripes_checked = rolling_checked = channels_checked = 0
     vcases, vwant = [], []
@@ -1205,11 +1213,18 @@ def _run(tier, res, b):
             for op in stream["ops"]:
                 cmd = op.get("cmd")
                 if cmd and cmd.get("kind") == "stripe":
-                    groups.setdefault(cmd["pass"], []).append(op)
+                    # one group = the stripes of ONE pass.  Pass names are not unique (ethosu/vela/lstm.py names the operators of
+                    # every unrolled step "output_gate#b.t_add" ... without the LSTM's own name, so two LSTM layers yield equal
+                    # pass names): the group key also carries the identity of the OFM tensor the pass writes (equivalence id,
+                    # address) and its write offset, which all stripes of one pass share
+                    ofm_ = cmd.get("ofm") or {}
+                    gkey = (cmd["pass"], ofm_.get("eq_id"), ofm_.get("address"), tuple(cmd.get("write_offset") or ()))
+                    groups.setdefault(gkey, []).append(op)
             mem = {}
             rolling_sizes = {}
             # oracle per pass: partition + tap equality
-            for pname, ops in groups.items():
+            for gkey, ops in groups.items():
+                pname = gkey[0]
                 cmd0 = ops[0]["cmd"]
                 if "read_shapes" not in cmd0:
                     outside["capture without C10 fields"] += 1
@@ -1290,8 +1305,9 @@ def _run(tier, res, b):
                                                                   ("w", (2, kern["width"], kern["stride_x"], kern["dilation_x"], pad["left"], pad["right"], opad[1]))):
                         lo_ = roff[ai] if roff else 0
                         hi_ = lo_ + (rshape[ai] if (roff and rshape) else ifm_shape[ai])
-                        if rmode == 2:
-                            continue      # transposed convolution: reference semantics outside this check (weights are flipped)
+                        # rmode 2 (transposed convolution): hardware and operator walk the same zero-inserted x2 grid (data on the
+                        # even positions), so what is decided is the geometry: the rows/columns of the grid that the operator reads
+                        # must lie in the IFM box handed to the hardware, padding must agree (the weight flip is C01's concern)
                         mm = stripe_tap_mismatch(cmd["ifm_box"]["start"][ai], cmd["ifm_box"]["end"][ai], p0, p1, ob["start"][ai], ob["end"][ai], ss_, kk, dd,
                                                  lo_, hi_, top, woff[ai], rmode)
                         if rmode == 0:    # the proved validator (check_stripes_sound) on the same stripe
